@@ -423,6 +423,49 @@ func checkC07(p *Prog, r *Report) {
 		}
 		r.Check(len(missing) == 0 && st != nil, "replacePairRemote carries every counter over from the same counter", p.Pos(f.Body.Pos()), "same-field copies", "not carried over from the same field: "+strings.Join(missing, ", ")+" — after the peer-reflexive candidate is replaced the pair's statistics no longer match the traffic")
 	}
+
+	// ---- R7.5 one key form for the validated-source cache ----------------------------------------------
+	r.Rule("R7.5", "The per-candidate cache of validated source addresses is read and written under one key form (toAddrPortKey of the address, or the key handed out by the cache's own Range): a lookup under a differently built key never hits, and a stale entry under one survives supersession.", 2)
+	{
+		n := 0
+		for _, f := range p.AllFuncs {
+			walkBody(f, func(x ast.Node) bool {
+				c, ok := x.(*ast.CallExpr)
+				if !ok {
+					return true
+				}
+				sel, ok := unparen(c.Fun).(*ast.SelectorExpr)
+				if !ok || !p.IsField(sel.X, "candidateBase.remoteCandidateCaches") {
+					return true
+				}
+				switch sel.Sel.Name {
+				case "Load", "Store", "Delete", "LoadOrStore", "LoadAndDelete", "CompareAndSwap", "Swap":
+				default:
+					return true
+				}
+				if len(c.Args) == 0 {
+					return true
+				}
+				n++
+				key := c.Args[0]
+				ok = false
+				if kc, _, isC := p.ResolveCall(f, key); isC && p.CalleeName(kc) == "ice.toAddrPortKey" {
+					ok = true
+				}
+				if id, isID := unparen(key).(*ast.Ident); isID && f.Lit != nil && f.Type != nil && f.Type.Params != nil {
+					// the key parameter of the Range callback
+					if p.ObjOf(id) == p.paramObj(f, 0) {
+						ok = true
+					}
+				}
+				r.Check(ok, "source cache key in "+f.Name+" ("+sel.Sel.Name+")", p.Pos(c.Pos()), "toAddrPortKey(addr)", "the validated-source cache is accessed under "+stripVarLines(p.Canon(key))+" here")
+				return true
+			})
+		}
+		if n < 2 {
+			r.Fail("source cache keys", "candidate_base.go", "cache accesses not found (rule instance lost)")
+		}
+	}
 }
 
 // constNameOrVar renders an error sentinel or variable name.
